@@ -25,6 +25,7 @@ META = {
                   "classes F14 and F1 are decided by Coq predicates on the input (f14_class, f1_class) with refutation "
                   "witnesses f14_refuted / f1_refuted.",
     "design_ref": "DESIGN.md §4 C01",
+    "bins": ["solve"],
     "assumptions": [
         "semantics of the C01 fragment as formalised in coq/Logic/Sem.v: ground types include opaque placeholders (open world); `not` only around closed goals; no mixed inductive/coinductive cycles (Contract.fragment_ok evaluated per case)",
         "auto-trait rule (clauses.rs push_auto_trait_impls) mirrored by proggen.auto_clauses",
